@@ -151,7 +151,10 @@ def atom_semantics(expr, data):
 
 # ----------------------------------------------------------------------------- generators
 
-LEVEL_POOLS = [["a", "b", "c", "d"], ["u", "v", "w", "z"], ["lo", "mid", "hi", "top"], [1, 2, 3, 4], ["a b", "c-d", "e.f", "g"]]
+# level labels are data: strings, integers from 1 and from 0, booleans, strings with "" first (the reference level of
+# a factor is its first level whatever its label is - falsy labels included)
+LEVEL_POOLS = [["a", "b", "c", "d"], ["u", "v", "w", "z"], ["lo", "mid", "hi", "top"], [1, 2, 3, 4], ["a b", "c-d", "e.f", "g"],
+               [0, 1, 2, 3], [0, 1, 2, 3], [False, True], ["", "x", "y", "z"]]
 
 
 def gen_data(rng, nrows, ncat=None, nnum=None):
@@ -160,8 +163,9 @@ def gen_data(rng, nrows, ncat=None, nnum=None):
     cat = {}
     for name in ["A", "B", "G"][:ncat]:
         pool = rng.choice(LEVEL_POOLS)
-        k = rng.randint(1, 4)
-        levels = pool[:k] if rng.random() < 0.7 else rng.sample(pool, k)
+        k = min(rng.randint(1, 4), len(pool))
+        falsy_first = pool[0] in (0, False, "")
+        levels = pool[:k] if (falsy_first or rng.random() < 0.7) else rng.sample(pool, k)
         declared = rng.random() < 0.6
         codes = [rng.randrange(k) for _ in range(nrows)]
         if rng.random() < 0.3:  # leave a level unused
